@@ -323,7 +323,7 @@ impl Prio3Visitor for V18<'_> {
 
 fn poplar(ctx: &mut Ctx) {
     let mut rng = ctx.rng("c18-poplar");
-    let n = ctx.budget(1_600, 80_000) / ctx.nshards as u64;
+    let n = ctx.budget(8_000, 80_000) / ctx.nshards as u64;
     for _ in 0..n {
         let bits = *rng.choose(&[2usize, 16, 64]);
         let vdaf = Poplar1::new_turboshake128(bits);
@@ -433,7 +433,7 @@ fn poplar(ctx: &mut Ctx) {
 
 pub fn run(ctx: &mut Ctx) {
     let mut rng = ctx.rng("c18");
-    let n_cfg = ctx.budget(3_200, 160_000) / ctx.nshards as u64;
+    let n_cfg = ctx.budget(16_000, 160_000) / ctx.nshards as u64;
     for i in 0..n_cfg {
         let kind = Kind::ALL[(i as usize + ctx.shard) % Kind::ALL.len()];
         let p = gen_params(&mut rng, kind, 80);
